@@ -510,11 +510,14 @@ def _pow(a, b):
         return simp(T.mkE(T.p_mul(lift(b).p, T.log_const(ca))))
     A = lift(a).p
     B = lift(b).p
-    if not T.is_pos(A):
-        c = Context.current
-        if c is not None:
-            c.require(T.b_not(T.b_le0(A)), f"base of real power positive: {A!r}")
-    return simp(T.mkPOWF(A, B))
+    if T.is_pos(A):
+        return simp(T.mkPOWF(A, B))
+    # base may be zero or negative: numpy gives 0 for 0**y (y > 0) and nan for a negative base
+    c = Context.current
+    if c is not None:
+        c.require(T.b_le0(T.p_neg(A)), f"negative base under a non-integer power gives nan: {A!r}")
+        c.require(T.b_or(T.b_not(T.b_le0(A)), T.b_not(T.b_le0(B))), f"0 ** non-positive exponent: {A!r}")
+    return simp(T.mkITE(T.b_not(T.b_le0(A)), T.mkPOWF(A, B, guarded=True), T.ZERO))
 
 
 # --------------------------------------------------------------------------- elementary functions
@@ -573,8 +576,27 @@ def s_max(a, b):
     return simp(T.mkITE(T.b_le(B, A), A, B))
 
 
+def known_truth(node: BoolT):
+    """Truth value of a condition already decided on the current path (or None)."""
+    if node.kind == "const":
+        return node.args[0]
+    c = Context.current
+    if c is None:
+        return None
+    neg = False
+    if node.kind == "not":
+        node, neg = node.args[0], True
+    v = c.known.get(node.id)
+    if v is None:
+        return None
+    return v != neg
+
+
 def s_ite(cond, a, b):
     cn = as_bool(cond)
+    k = known_truth(cn)
+    if k is not None:
+        return a if k else b
     return simp(T.mkITE(cn, lift(a).p, lift(b).p))
 
 
